@@ -325,6 +325,46 @@ def _retry_idempotence(col, rule="C18.R4"):
                 f"state attributes {sorted(state)}; committed at {cx.loc(early[0][0])} before the write at {cx.loc(early[0][1])}" if early else "")
 
 
+def _target_not_read_by_assignment(col, rule="C18.R6"):
+    """`set_value` does not evaluate the location it is about to assign: after a first write that failed the location may not
+    exist (a new key), and a read there makes every repeat of the assignment fail before anything is unregistered or written"""
+    from . import c01
+    sx = sctx(col.repo, "Manager", "set_value", keep=c01.ANCHORS)
+    ref = sx.P(0)
+    reads = [ev for ev in sx.of_kind("call") if S.is_call_of(ev.term, meth="_get_value") and ev.term[1][1] == ref]
+    col.add(rule, "Manager.set_value#target-not-evaluated", not reads, sx.loc(reads[0]) if reads else sx.loc(sx.fn),
+            "an assignment never reads the current content of its target (it may not exist yet, e.g. after a failed first write)",
+            S.show(reads[0].term) if reads else "", positive=bool(reads))
+
+
+QUERIES = ("cleanup", "verify", "dump", "find_deps", "find_tasks", "find_taskids", "iter_expr_tasks_owner", "mk_fun", "gen_fun", "clone", "copy")
+
+
+def _maintenance_removes_no_definition(col, rule="C18.R7"):
+    """queries and housekeeping (verify() calls cleanup() and clone()) leave the set of definitions alone: a definition dropped by a
+    consistency check between a failed update and its repeat is not there to be repeated"""
+    repo = col.repo
+    n = 0
+    for meth in QUERIES:
+        if not repo.has_method("Manager", meth):
+            continue
+        try:
+            sx = sctx(repo, "Manager", meth, public=False, keep={"register", "unregister", "set_value"})
+        except (AnalysisError, NotImplementedError):
+            continue
+        n += 1
+        bad = [ev for ev in sx.of_kind("call")
+               if S.is_call_of(ev.term) and ev.term[1][:1] == ("attr",) and ev.term[1][1] == S.SELF and ev.term[1][2] in ("unregister", "set_value")
+               or (S.is_call_of(ev.term) and ev.term[1][:1] == ("attr",) and ev.term[1][1] == S.SELF and ev.term[1][2] == "register" and meth not in ("refresh",))]
+        dels = [ev for ev in sx.of_kind("delete") + sx.of_kind("store") if ev.term is not None and S.sattr("tasks") in set(S.subterms(ev.term))] \
+            if hasattr(sx, "of_kind") else []
+        col.add(rule, f"Manager.{meth}#changes-no-definition", not bad and not dels, sx.loc((bad or dels)[0]) if (bad or dels) else sx.loc(sx.fn),
+                "no definition is registered, removed or assigned by a query / housekeeping method on the manager it is asked about",
+                S.show((bad or dels)[0].term)[:80] if (bad or dels) else "", positive=bool(bad or dels))
+    if n < 5:
+        raise AnalysisError("fewer than 5 query methods of Manager found -- cannot decide")
+
+
 def check(col: Collector):
     with col.rule():
         _no_swallowing(col)
@@ -338,3 +378,13 @@ def check(col: Collector):
     from .toposort_rules import check_toposort
     with col.rule():
         check_toposort(col, "C18.R5")
+    # round 7
+    with col.rule():
+        _target_not_read_by_assignment(col)
+    with col.rule():
+        _maintenance_removes_no_definition(col)
+    from . import c20
+    from .common import shared
+    with col.rule():
+        shared(col, "C18.R8", [c20._no_exception_dropping_c_functions],
+               why="a write compiled to a C function that cannot carry an exception swallows the container's failure: the caller sees success")
